@@ -11,6 +11,7 @@ import tempfile
 
 from sim import clock as simclock
 from sim import fs as simfs
+from sim import identity
 from sim import manager as simmanager
 from sim.context import Sim
 from sim.executor import SimExecutor
@@ -44,6 +45,7 @@ def begin_case():
     """Reset interpreter-global harness state so a case is a pure function of (case, tape)."""
     simmanager.install()
     simmanager.reset()
+    identity.install()
     from pipefunc._utils import _cached_load
 
     _cached_load.cache_clear()  # process-wide lru_cache keyed by (path, mtime, size)
